@@ -13,6 +13,7 @@ import (
 	"sync"
 
 	"verifharness/internal/mon"
+	"verifharness/internal/real"
 	"verifharness/internal/rng"
 )
 
@@ -63,7 +64,16 @@ func (c *ctx) parallel(n int, fn func(i int, r *rng.R)) {
 		go func() {
 			defer wg.Done()
 			for i := range next {
-				fn(i, rng.New(rng.Mix(base, uint64(i))))
+				func() {
+					// a panic of the harness itself while it evaluates a case (typically: the library handed it something a
+					// correct library never hands out) ends that case, not the run; alone it makes the run inconclusive
+					defer func() {
+						if r := recover(); r != nil {
+							c.Inconclusive(fmt.Sprintf("the harness panicked while evaluating case %d: %v", i, r))
+						}
+					}()
+					fn(i, rng.New(rng.Mix(base, uint64(i))))
+				}()
 			}
 		}()
 	}
@@ -101,6 +111,10 @@ func main() {
 	}
 	if *worker != "" {
 		workerMain(*worker, flag.Args())
+		return
+	}
+	if *prop == "C14" && os.Getenv("VERIF_C14_FIRST") != "" {
+		c14FirstChild() // before anything else touches the library
 		return
 	}
 	if *prop == "canaries" {
@@ -149,7 +163,17 @@ func main() {
 		// map write") kills the process that hits it, and that is an observation, not a harness failure
 		os.Exit(c17Parent(c))
 	}
-	def.run(c)
+	real.OnAnomaly = func(what string) {
+		c.Violation(*prop+"/snapshot-anomaly", what, map[string]string{"note": "noticed by real.Snap / real.SnapItem while reading an object; see the violation text"})
+	}
+	func() {
+		defer func() {
+			if r := recover(); r != nil {
+				c.Inconclusive(fmt.Sprintf("the harness panicked: %v", r))
+			}
+		}()
+		def.run(c)
+	}()
 	code := run.Finish()
 	pprof.StopCPUProfile()
 	os.Exit(code)
